@@ -229,9 +229,14 @@ def c20_judge(proj, runs):
                     # (tests/should_ok/many_import/unused_import.er): at most once is all that is asked
                     want_tags = tags
                 result = [l for l in out.split("\n") if l.startswith("RESULT ")]
-                if rc != 0:
+                result_ok = result == [f'RESULT {proj["expect"]["result"]}'] or proj["expect"].get("result") is None
+                if rc is not None and rc < 0 and tags == want_tags and result_ok:
+                    # everything was printed, then the interpreter itself died
+                    bad.append({"run": r["kind"], "seed": r["seed"], "clause": "interpreter_dies_at_exit",
+                                "detail": f"python: signal {-rc} after complete and correct output"})
+                elif rc != 0:
                     bad.append({"run": r["kind"], "seed": r["seed"], "clause": "program_runs",
-                                "detail": (err.strip().split("\n") or ["?"])[-1][:300]})
+                                "detail": (err.strip().split("\n") or ["?"])[-1][:300] or f"rc={rc}"})
                 elif tags != want_tags:
                     bad.append({"run": r["kind"], "seed": r["seed"], "clause": "top_level_once",
                                 "detail": f"tags {tags} want {want_tags}"})
@@ -256,10 +261,7 @@ GEN_OPTS = {
             "shapes": ["dag", "dag", "dag", "chain", "diamond", "fanout", "fanout", "self", "cycle2", "idlefan"]},
     "C20": {"label": "C20", "p_errors": 0.15, "p_poly": 0.05,
             "shapes": ["dag", "dag", "chain", "diamond", "fanout", "self", "cycle2", "cycle2",
-                       "cycle2_outside", "cycle3", "twocycles", "idlefan"]},
-    # ("overlap" - two cycles sharing an edge - is generated by genproj but not explored by default:
-    #  on the unchanged tree its outcome depends on the project path and the schedule, and the
-    #  compiled program makes CPython crash at exit; see known_findings.json / DESIGN 9.4)
+                       "cycle2_outside", "cycle3", "twocycles", "idlefan", "overlap"]},
 }
 
 
